@@ -30,6 +30,7 @@ ZCONFIGS = [(zc, rel) for zc in ("versioned", "btree") for rel in (True, False)]
 ALL_OPS = ["open", "openid", "openserial", "openboth", "close", "begin", "stage", "commit", "rollback", "setmax", "setpolicy",
            "mutate", "zmutate"]
 SCRIBBLE = ["scribble"]
+FAULT = ["commitfault", "reuse"]
 
 GEN_CFG = """INIT GInit
 NEXT GNext
@@ -49,7 +50,7 @@ CONSTANTS
   CloseHows = {closehows}
   EndHows = {endhows}
   IdOffsets <- {idoffsets}
-  Forms = {forms}
+  Styles <- {styles}
 CHECK_DEADLOCK FALSE
 """
 EDGE = "VIEW vars\nACTION_CONSTRAINT EmitEdge"
@@ -64,7 +65,7 @@ def gen_cfg(ctx, name, **kw):
     d = dict(mode=EDGE, contents="GenContentsSmall", rids=tset([1, 2]), maxargs=tset([0, 1, 2]),
              policies=tset(["oddid", "oldserial", "none"]), idargs=tset([1, 2, 3, 9]), serialargs=tset([0, 1, 7]),
              depth=7, ops=tset(ALL_OPS), initkinds=tset(["fresh"]), initcontents="GenInitOne", maxcommits=3,
-             closehows=tset(["rollback"]), endhows=tset(["commit", "rollback"]), idoffsets="GenNoOffsets", forms=tset(["rdata"]))
+             closehows=tset(["rollback"]), endhows=tset(["commit", "rollback"]), idoffsets="GenNoOffsets", styles="GenStyleOwn")
     d.update(kw)
     return ctx.cfg(name, GEN_CFG.format(**d))
 
@@ -155,8 +156,8 @@ def run(ctx):
             contents="GenContentsSmall" if quick else "GenContentsMid", rids=tset([1, 2, 3]),
             maxargs=tset([1, 2] if quick else [1, 2, 3]), policies=tset(["oddid", "oldserial"]),
             idargs=tset([2, 3, 4] if quick else [2, 3, 4, 5]), serialargs=tset([0, 1, 2] if quick else [0, 1, 2, 3]),
-            ops=tset([o for o in ALL_OPS if o not in ("openboth", "mutate", "zmutate")] + SCRIBBLE),
-            forms=tset(["rdataset"] if quick else ["rdataset", "rrset"]),
+            ops=tset([o for o in ALL_OPS if o not in ("openboth", "mutate", "zmutate")] + SCRIBBLE + FAULT),
+            styles="GenStyleE2" if quick else "GenStyleE2T",
             depth=5 if quick else 7, maxcommits=4 if quick else 5,
             closehows=tset(["commit", "exit"]), endhows=tset(["exit", "raise"])))
         nany = len(scripts)
@@ -168,7 +169,7 @@ def run(ctx):
             ctx, "e3.cfg", initkinds=tset(["loaded"]), initcontents="GenInitDeleg", contents="GenContentsDeleg",
             rids=tset([1, 2]), maxargs=tset([2]), policies="{}", idargs=tset([2, 3]), serialargs="{}",
             ops=tset(["open", "openid", "close", "begin", "stage", "commit", "setmax", "mutate"] + SCRIBBLE),
-            forms=tset(["rdata", "rdataset"]), depth=5 if quick else 7, maxcommits=3 if quick else 4,
+            styles="GenStyleE3", depth=5 if quick else 7, maxcommits=3 if quick else 4,
             closehows=tset(["exit"]), endhows=tset(["commit"])))
         btree_only = scripts[nany:]
         scripts = scripts[:nany]
@@ -177,15 +178,16 @@ def run(ctx):
         d = 20 if quick else 40
         simkw = dict(mode=SIM, initcontents="GenInitTwo", contents="GenContents", rids=tset([1, 2, 3]), maxargs=tset([0, 1, 2, 3]),
                      idargs=tset([1]), idoffsets="GenIdOffsets", serialargs=tset([0, 1, 2, 3]), depth=d, maxcommits=12,
-                     closehows=tset(["commit", "rollback", "exit"]), endhows=tset(["commit", "exit", "rollback", "raise"]))
+                     closehows=tset(["commit", "rollback", "exit"]), endhows=tset(["commit", "exit", "rollback", "raise"]),
+                     styles="GenStyleAll")
         if n:
-            scripts += ctx.generate("Gen_VersionedZone", gen_cfg(ctx, "s1.cfg", initkinds=tset(["loaded"]), **simkw),
+            scripts += ctx.generate("Gen_VersionedZone", gen_cfg(ctx, "s1.cfg", initkinds=tset(["loaded"]), ops=tset(ALL_OPS + SCRIBBLE + FAULT), **simkw),
                                     simulate="num=%d" % n, depth=d + 2, seed=ctx.seed + 1, deadlock=False)
         # S2: long random histories from a new zone (mutation attempts through the initial
         # version are covered by E1; here they would end every history at its first one)
         if n:
             scripts += ctx.generate("Gen_VersionedZone", gen_cfg(
-                ctx, "s2.cfg", initkinds=tset(["fresh"]), ops=tset([o for o in ALL_OPS if o not in ("mutate", "zmutate")]), **simkw),
+                ctx, "s2.cfg", initkinds=tset(["fresh"]), ops=tset([o for o in ALL_OPS if o not in ("mutate", "zmutate")] + FAULT), **simkw),
                 simulate="num=%d" % (n // 2), depth=d + 2, seed=ctx.seed + 2, deadlock=False)
         scripts = [json.loads(x) for x in dict.fromkeys(json.dumps(s, sort_keys=True) for s in scripts)]
         btree_only = [json.loads(x) for x in dict.fromkeys(json.dumps(s, sort_keys=True) for s in btree_only)]
